@@ -289,6 +289,8 @@ def h_model(ctx):
     if not ctx.require(len(rows) == len(exp), "model:row-count", expected=len(exp), actual=len(rows), argv=ctx.notes["argv"]):
         return
     tol_digits = 5 if "agg_len" in kw else 6
+    if not ctx.require(all(len(row) == lead + n for row in rows), "model:column-count", expected=lead + n, actual=sorted(set(len(row) for row in rows)), argv=ctx.notes["argv"]):
+        return
     for k, (row, e_row) in enumerate(zip(rows, exp)):
         for i in range(n):
             e = e_row[i]
